@@ -1010,7 +1010,10 @@ impl<S: PtpInstanceStateMutex + 'static> World<S> {
         let e = ev["e"].as_str().unwrap_or("");
         let p = gu(ev, "p", 1) as usize - 1;
         match e {
-            "bmca" => return self.bmca(),
+            "bmca" => {
+                let ord: Option<Vec<usize>> = ev.get("ord").and_then(|o| o.as_array()).map(|a| a.iter().map(|x| x.as_u64().unwrap() as usize - 1).collect());
+                return self.bmca(ord);
+            }
             "so" => {
                 let v = gb(ev, "v", true);
                 let r = catch_unwind(AssertUnwindSafe(|| self.inst().set_slave_only(v)));
@@ -1127,7 +1130,7 @@ impl<S: PtpInstanceStateMutex + 'static> World<S> {
         json!({ "panic": msg })
     }
 
-    fn bmca(&mut self) -> Value {
+    fn bmca(&mut self, ord: Option<Vec<usize>>) -> Value {
         // the daemon: every port task does start_bmca, the main task runs bmca, ports do end_bmca
         let mut bports: Vec<BPort<S>> = vec![];
         for i in 0..self.ports.len() {
@@ -1139,8 +1142,13 @@ impl<S: PtpInstanceStateMutex + 'static> World<S> {
         }
         let inst = self.inst();
         let r = catch_unwind(AssertUnwindSafe(|| {
-            let mut refs: Vec<&mut BPort<S>> = bports.iter_mut().collect();
-            inst.bmca(&mut refs);
+            let mut refs: Vec<Option<&mut BPort<S>>> = bports.iter_mut().map(Some).collect();
+            // the host may pass the ports in any order
+            let mut ordered: Vec<&mut BPort<S>> = match &ord {
+                Some(o) => o.iter().map(|i| refs[*i].take().expect("port order must be a permutation")).collect(),
+                None => refs.iter_mut().map(|r| r.take().unwrap()).collect(),
+            };
+            inst.bmca(&mut ordered);
         }));
         let mut pend = vec![];
         for (i, b) in bports.into_iter().enumerate() {
